@@ -128,6 +128,97 @@ theorem loopSym_meas (i : Nat) : (loopSym i).meas = [] := rfl
 theorem loopSym_loop (i : Nat) : (loopSym i).pos.loop = some i := rfl
 theorem loopSym_noVal (i : Nat) : (loopSym i).noVal = loopSym i := rfl
 
+/-! ### subsystem indices in symbol names -/
+
+theorem digitVal_digitChar {d : Nat} (h : d < 10) : digitVal (digitChar d) = some d := by
+  have : ∀ d, d < 10 → digitVal (digitChar d) = some d := by decide
+  exact this d h
+
+theorem parseFrom_append (acc : Nat) (l : List Char) (c : Char) :
+    parseFrom acc (l ++ [c]) = (parseFrom acc l).bind fun a => (digitVal c).map fun d => a * 10 + d := by
+  induction l generalizing acc with
+  | nil =>
+    simp only [List.nil_append, parseFrom, Option.bind]
+    cases digitVal c <;> rfl
+  | cons x xs ih =>
+    simp only [List.cons_append, parseFrom]
+    cases digitVal x with
+    | none => rfl
+    | some d => exact ih _
+
+theorem printIndex_ne_nil (n : Nat) : printIndex n ≠ [] := by
+  rw [printIndex]
+  split
+  · simp
+  · simp
+
+/-- **decimal printing and parsing of an index round-trip**, for every `n` -/
+theorem parseFrom_printIndex (n : Nat) : parseFrom 0 (printIndex n) = some n := by
+  induction n using Nat.strongRecOn with
+  | _ n ih =>
+    rw [printIndex]
+    split
+    · rename_i h
+      simp only [parseFrom, digitVal_digitChar h]
+      simp
+    · rename_i h
+      rw [parseFrom_append, ih (n / 10) (by omega), digitVal_digitChar (Nat.mod_lt n (by decide))]
+      simp only [Option.bind, Option.map]
+      congr 1
+      omega
+
+theorem parseIndex_printIndex (n : Nat) : parseIndex (printIndex n) = some n := by
+  have h := printIndex_ne_nil n
+  have hp := parseFrom_printIndex n
+  cases hl : printIndex n with
+  | nil => exact absurd hl h
+  | cons c cs => rw [hl] at hp; exact hp
+
+theorem measuredIndex_qName (i : Nat) : measuredIndex (qName i) = some i := by
+  simp only [measuredIndex, qName, String.toList_ofList]
+  exact parseIndex_printIndex i
+
+/-- free-parameter names that are not of the form `q<index>` (otherwise the IRs cannot tell them from
+measured parameters) -/
+def WellNamed (e : Sym) : Prop := ∀ f ∈ e.frees, measuredIndex f = none
+
+instance (e : Sym) : Decidable (WellNamed e) := by unfold WellNamed; infer_instance
+
+theorem filterMap_qName (l : List Nat) : (l.map qName).filterMap measuredIndex = l := by
+  induction l with
+  | nil => rfl
+  | cons a l ih => simp only [List.map_cons, List.filterMap_cons, measuredIndex_qName, ih]
+
+theorem filter_qName (l : List Nat) : (l.map qName).filter (fun s => (measuredIndex s).isNone) = [] := by
+  induction l with
+  | nil => rfl
+  | cons a l ih => simp [measuredIndex_qName, ih]
+
+theorem filterMap_free {l : List String} (h : ∀ f ∈ l, measuredIndex f = none) : l.filterMap measuredIndex = [] := by
+  induction l with
+  | nil => rfl
+  | cons a l ih =>
+    simp only [List.filterMap_cons, h a (List.mem_cons_self)]
+    exact ih (fun f hf => h f (List.mem_cons_of_mem _ hf))
+
+theorem filter_free {l : List String} (h : ∀ f ∈ l, measuredIndex f = none) :
+    l.filter (fun s => (measuredIndex s).isNone) = l := by
+  induction l with
+  | nil => rfl
+  | cons a l ih =>
+    simp only [List.filter_cons, h a (List.mem_cons_self), Option.isNone_none, ↓reduceIte]
+    rw [ih (fun f hf => h f (List.mem_cons_of_mem _ hf))]
+
+/-- **`par_convert` inverts the writers' naming**: writing an expression under the names of its atoms and
+mapping the names back (`q<i>` ↦ subsystem `i`, for every `i`, any number of digits) returns the expression -/
+theorem fromI_toI (e : Sym) (hw : WellNamed e) : fromI (toI e) = e.noVal := by
+  obtain ⟨pos, neg, meas, frees, val⟩ := e
+  simp only [fromI, toI, Sym.noVal, List.filterMap_append, List.filter_append, filterMap_qName, filter_qName,
+    filterMap_free hw, filter_free hw, List.append_nil, List.nil_append]
+
+theorem fromI_toI_val (e : Sym) (hw : WellNamed e) : fromI { toI e with val := none } = e.noVal :=
+  fromI_toI e hw
+
 /-- a value as it is in a freshly loaded program: symbolic parameters hold no value -/
 def Val.noVal : Val → Val
   | .sym e => match constVal e with
@@ -154,21 +245,26 @@ def rdArg (tdm : Bool) : Val → Val := if tdm then tdmArg else unPname
 /-- a parameter Blackbird carries (`P`: what SymPy parses, `n` modes): numbers, arrays, genuine
 strings, expressions of measured parameters of existing modes (`RegRefTransform`), the TDM loop
 variables, and expressions without measured parameters that are written as strings SymPy parses back -/
-def ValBB (P : String → Option Sym) (tdm : Bool) (n : Nat) : Val → Prop
+def ValBB (P : String → Option ISym) (tdm : Bool) (n : Nat) : Val → Prop
   | .sc _ => True
   | .arr _ _ => True
   | .str s => P s = none
   | .sym e => (∃ v, constVal e = some v)
-      ∨ (constVal e = none ∧ e.meas ≠ [] ∧ ∀ i ∈ e.meas, i < n)
+      ∨ (constVal e = none ∧ e.meas ≠ [] ∧ (∀ i ∈ e.meas, i < n) ∧ WellNamed e)
       ∨ (tdm = true ∧ ∃ i, e = loopSym i)
-      ∨ (constVal e = none ∧ e.meas = [] ∧ (tdm = false ∨ e.pos.loop = none) ∧ P e.pos.text = some e.noVal)
+      ∨ (constVal e = none ∧ e.meas = [] ∧ (tdm = false ∨ e.pos.loop = none) ∧ WellNamed e ∧
+          P e.pos.text = some { toI e with val := none })
   | _ => False
+
+theorem convert_rrt {n : Nat} {e : Sym} (hw : WellNamed e) (hm : ∀ i ∈ e.meas, i < n) :
+    convert n (.rrt { toI e with val := none }) = .ok (.sym e.noVal) := by
+  simp only [convert, fromI_toI_val e hw, noVal_meas, all_lt_of hm, ↓reduceIte]
 
 theorem loopSym_const (i : Nat) : constVal (loopSym i) = none := by
   simp [constVal, loopSym]
 
 /-- Blackbird: writer, text layer, reader on one argument -/
-theorem bb_val_rt {P : String → Option Sym} {tdm : Bool} {n : Nat} {v : Val} (h : ValBB P tdm n v) :
+theorem bb_val_rt {P : String → Option ISym} {tdm : Bool} {n : Nat} {v : Val} (h : ValBB P tdm n v) :
     convert n (bbExpr P (rdArg tdm (textVal (bbArg tdm v)))) = .ok v.noVal := by
   cases v with
   | sc s => cases tdm <;> rfl
@@ -177,23 +273,29 @@ theorem bb_val_rt {P : String → Option Sym} {tdm : Bool} {n : Nat} {v : Val} (
     have h' : P s = none := h
     cases tdm <;> simp [bbArg, textVal, rdArg, tdmArg, unPname, bbExpr, h', convert, Val.noVal]
   | sym e =>
-    rcases h with ⟨v, hc⟩ | ⟨hc, h1, h2⟩ | ⟨h1, i, rfl⟩ | ⟨hc, h1, h2, h3⟩
+    rcases h with ⟨v, hc⟩ | ⟨hc, h1, h2, hw⟩ | ⟨h1, i, rfl⟩ | ⟨hc, h1, h2, hw, h3⟩
     · cases tdm <;> simp [bbArg, hc, textVal, rdArg, tdmArg, unPname, bbExpr, convert, Val.noVal]
-    · cases tdm <;>
-        simp [bbArg, hc, h1, textVal, rdArg, tdmArg, unPname, bbExpr, convert, all_lt_of h2, Val.noVal]
+    · have hcv := convert_rrt hw h2
+      cases tdm <;>
+        simp only [bbArg, hc, h1, ne_eq, not_false_eq_true, ↓reduceIte, textVal, rdArg, Bool.false_eq_true,
+          tdmArg, unPname, bbExpr, hcv, Val.noVal]
     · subst h1
       simp [bbArg, loopSym_const, loopSym_meas, loopSym_loop, textVal, rdArg, tdmArg, bbExpr, convert, Val.noVal,
         loopSym_noVal]
-    · rcases h2 with rfl | h2
-      · simp [bbArg, hc, h1, textVal, rdArg, unPname, bbExpr, h3, convert, Val.noVal]
+    · have hcv := convert_rrt (n := n) hw (by rw [h1]; intro i hi; cases hi)
+      rcases h2 with rfl | h2
+      · simp only [bbArg, hc, h1, ne_eq, not_true_eq_false, ↓reduceIte, textVal, rdArg, Bool.false_eq_true,
+          unPname, bbExpr, h3, hcv, Val.noVal]
       · cases tdm
-        · simp [bbArg, hc, h1, textVal, rdArg, unPname, bbExpr, h3, convert, Val.noVal]
-        · simp [bbArg, hc, h1, h2, textVal, rdArg, tdmArg, bbExpr, h3, convert, Val.noVal]
+        · simp only [bbArg, hc, h1, ne_eq, not_true_eq_false, ↓reduceIte, textVal, rdArg, Bool.false_eq_true,
+            unPname, bbExpr, h3, hcv, Val.noVal]
+        · simp only [bbArg, hc, h1, h2, ne_eq, not_true_eq_false, ↓reduceIte, textVal, rdArg, tdmArg, bbExpr,
+            h3, hcv, Val.noVal]
   | lst l => cases h
   | rrt e => cases h
   | pname i => cases h
 
-theorem selOK_facts {P : String → Option Sym} {tdm : Bool} {n : Nat} {v : Val} (h : SelOK v) :
+theorem selOK_facts {P : String → Option ISym} {tdm : Bool} {n : Nat} {v : Val} (h : SelOK v) :
     convert n (bbExpr P (rdArg tdm v)) = .ok v ∧ convert n v = .ok v ∧ xirExpr P (unPname v) = .ok v ∧
     (∀ k, xirReadKwTdm P k v = .ok v) ∧ xirArg tdm v = v := by
   cases v with
@@ -218,7 +320,7 @@ theorem measKw_eq {c : Cmd} (h : c.dark = none ∨ c.cls = "MeasureFock") :
   · rw [h]; simp [optKw]
   · rw [if_pos h]
 
-theorem kw_facts (P : String → Option Sym) (tdm : Bool) (n : Nat) (sel dark : Option Val)
+theorem kw_facts (P : String → Option ISym) (tdm : Bool) (n : Nat) (sel dark : Option Val)
     (hs : OptSel sel) (hd : OptSel dark) :
     let kws := optKw "select" sel ++ optKw "dark_counts" dark
     convertKw n (kws.map fun kv => (kv.1, bbExpr P (rdArg tdm kv.2))) = .ok kws ∧
@@ -282,10 +384,10 @@ def clearCmd (c : Cmd) : Cmd := { c with pars := c.pars.map Val.noVal }
 def textOp (o : BBOp) : BBOp := { o with args := o.args.map textVal }
 
 /-- the Blackbird reader of one operation, by program type -/
-def rdBBOp (P : String → Option Sym) (tdm : Bool) (n : Nat) (o : BBOp) : Except Err Cmd :=
+def rdBBOp (P : String → Option ISym) (tdm : Bool) (n : Nat) (o : BBOp) : Except Err Cmd :=
   if tdm then fromBBOpTdm P n o else fromBBOp P n o
 
-theorem rdBBOp_eq (P : String → Option Sym) (tdm : Bool) (n : Nat) (o : BBOp) :
+theorem rdBBOp_eq (P : String → Option ISym) (tdm : Bool) (n : Nat) (o : BBOp) :
     rdBBOp P tdm n o = (do
       checkName o.op
       let args ← (o.args.map (bbExpr P ∘ rdArg tdm)).mapM (convert n)
@@ -294,7 +396,7 @@ theorem rdBBOp_eq (P : String → Option Sym) (tdm : Bool) (n : Nat) (o : BBOp) 
   cases tdm <;> rfl
 
 /-- commands in the fragment Blackbird expresses -/
-def CmdBB (P : String → Option Sym) (tdm : Bool) (n : Nat) (c : Cmd) : Prop :=
+def CmdBB (P : String → Option ISym) (tdm : Bool) (n : Nat) (c : Cmd) : Prop :=
   SFV.Gen.ioClassNames.contains c.cls = true ∧ c.kw = [] ∧ (∀ v ∈ c.pars, ValBB P tdm n v) ∧
   ((isMeasure c.cls = true ∧ c.cls ≠ "Fouriergate" ∧ c.dagger = false ∧ OptSel c.select ∧ OptSel c.dark ∧
       (c.dark = none ∨ c.cls = "MeasureFock")) ∨
@@ -303,14 +405,14 @@ def CmdBB (P : String → Option Sym) (tdm : Bool) (n : Nat) (c : Cmd) : Prop :=
        (c.cls ≠ "Fouriergate" ∧ (c.dagger = true → negInverts c.cls = true ∧
           ∃ a as b, c.pars = a :: as ∧ a.neg = some b ∧ ValBB P tdm n b)))))
 
-theorem bb_vals_rt {P : String → Option Sym} {tdm : Bool} {n : Nat} {l : List Val}
+theorem bb_vals_rt {P : String → Option ISym} {tdm : Bool} {n : Nat} {l : List Val}
     (h : ∀ v ∈ l, ValBB P tdm n v) :
     ((((l.map (bbArg tdm)).map textVal).map (bbExpr P ∘ rdArg tdm))).mapM (convert n) = .ok (l.map Val.noVal) := by
   rw [List.map_map, List.map_map]
   exact mapM_map_ok _ (convert n) Val.noVal l (fun v hv => bb_val_rt (h v hv))
 
 /-- one command through `to_blackbird`, the text layer and the Blackbird reader -/
-theorem bb_cmd_rt {P : String → Option Sym} {tdm : Bool} {n : Nat} {c : Cmd} (h : CmdBB P tdm n c) :
+theorem bb_cmd_rt {P : String → Option ISym} {tdm : Bool} {n : Nat} {c : Cmd} (h : CmdBB P tdm n c) :
     ∃ o, toBBOp tdm c = .ok o ∧ o.modes = c.regs ∧
       rdBBOp P tdm n (textOp o) = .ok (clearCmd (normCmd c)) := by
   obtain ⟨cls, regs, pars, dagger, select, dark, kw⟩ := c
@@ -367,7 +469,7 @@ theorem bb_cmd_rt {P : String → Option Sym} {tdm : Bool} {n : Nat} {c : Cmd} (
 def usedModes (p : Prog) : Nat := modeCount (p.cmds.map (·.regs))
 
 /-- the fragment Blackbird expresses (ordinary and TDM programs) -/
-def ExprBB (P : String → Option Sym) (p : Prog) : Prop :=
+def ExprBB (P : String → Option ISym) (p : Prog) : Prop :=
   (p.cmds.map (·.regs)).flatten ≠ [] ∧
   (p.target = none → p.shots = none ∧ p.cutoff = none) ∧ p.extra = [] ∧
   (∀ t, p.tdm = some t → t.N = [usedModes p]) ∧
@@ -383,7 +485,7 @@ def bbOpOf (tdm : Bool) (c : Cmd) : BBOp :=
   | .ok o => o
   | .error _ => default
 
-theorem bb_prog_rt (P : String → Option Sym) (p : Prog) (h : ExprBB P p) :
+theorem bb_prog_rt (P : String → Option ISym) (p : Prog) (h : ExprBB P p) :
     ∃ bb, toBB p = .ok bb ∧ toProgramBB P (reparseBB bb) = .ok (normBB p) := by
   obtain ⟨name, n, target, shots, cutoff, tdm, extra, cmds⟩ := p
   obtain ⟨hne, hopt, hex, hN, hc⟩ := h
@@ -438,53 +540,54 @@ theorem bb_prog_rt (P : String → Option Sym) (p : Prog) (h : ExprBB P p) :
 /-! ### XIR: values -/
 
 /-- the XIR reader of one positional argument, by program type (`k` loop variables) -/
-def rdX (P : String → Option Sym) (tdm : Bool) (k : Nat) : Val → Except Err Val :=
+def rdX (P : String → Option ISym) (tdm : Bool) (k : Nat) : Val → Except Err Val :=
   if tdm then xirReadArgTdm P k else xirReadArg P
 
 /-- the XIR reader of one keyword argument, by program type -/
-def rdKw (P : String → Option Sym) (tdm : Bool) (k : Nat) (v : Val) : Except Err Val :=
+def rdKw (P : String → Option ISym) (tdm : Bool) (k : Nat) (v : Val) : Except Err Val :=
   if tdm then xirReadKwTdm P k v else xirExpr P (unPname v)
 
 /-- a symbolic parameter XIR carries: a TDM loop variable, or an expression (free and measured
 parameters of existing modes) whose printed form SymPy parses back -/
-def SymX (P : String → Option Sym) (tdm : Bool) (k n : Nat) (e : Sym) : Prop :=
+def SymX (P : String → Option ISym) (tdm : Bool) (k n : Nat) (e : Sym) : Prop :=
   (∃ v, constVal e = some v) ∨
   (tdm = true ∧ ∃ i, i < k ∧ e = loopSym i) ∨
-  (constVal e = none ∧ (tdm = false ∨ e.pos.loop = none) ∧ P e.pos.plain = some e.noVal ∧ ∀ i ∈ e.meas, i < n)
+  (constVal e = none ∧ (tdm = false ∨ e.pos.loop = none) ∧ WellNamed e ∧
+    P e.pos.plain = some { toI e with val := none } ∧ ∀ i ∈ e.meas, i < n)
 
 /-- a parameter XIR carries: numbers, arrays (1-D: shape = length), symbolic parameters -/
-def ValX (P : String → Option Sym) (tdm : Bool) (k n : Nat) : Val → Prop
+def ValX (P : String → Option ISym) (tdm : Bool) (k n : Nat) : Val → Prop
   | .sc _ => True
   | .arr sh d => ∀ m, sh = [m] → m = d.length
   | .sym e => SymX P tdm k n e
   | _ => False
 
 /-- a measurement phase XIR carries (keyword argument): a number or a symbolic parameter -/
-def PhiX (P : String → Option Sym) (tdm : Bool) (k n : Nat) : Val → Prop
+def PhiX (P : String → Option ISym) (tdm : Bool) (k n : Nat) : Val → Prop
   | .sc _ => True
   | .sym e => SymX P tdm k n e
   | _ => False
 
-theorem xir_sym_rt {P : String → Option Sym} {tdm : Bool} {k n : Nat} {e : Sym} (h : SymX P tdm k n e) :
+theorem xir_sym_rt {P : String → Option ISym} {tdm : Bool} {k n : Nat} {e : Sym} (h : SymX P tdm k n e) :
     (rdX P tdm k (xirArg tdm (.sym e)) >>= convert n) = .ok (Val.noVal (.sym e)) ∧
     (rdKw P tdm k (xirArg tdm (.sym e)) >>= convert n) = .ok (Val.noVal (.sym e)) := by
-  rcases h with ⟨v, hc⟩ | ⟨rfl, i, hi, rfl⟩ | ⟨hc, h1, h2, h3⟩
+  rcases h with ⟨v, hc⟩ | ⟨rfl, i, hi, rfl⟩ | ⟨hc, h1, hw, h2, h3⟩
   · cases tdm <;>
       simp [rdX, rdKw, xirArg, hc, xirReadArg, xirReadArgTdm, xirReadKwTdm, unPname, xirExpr, bind, Except.bind,
         convert, Val.noVal]
   · simp [rdX, rdKw, xirArg, loopSym_const, loopSym_loop, xirReadArgTdm, xirReadKwTdm, hi, bind, Except.bind,
       convert, loopSym_meas, loopSym_noVal, Val.noVal]
-  · rcases h1 with rfl | h1
-    · simp [rdX, rdKw, xirArg, hc, xirReadArg, unPname, xirExpr, h2, bind, Except.bind, convert, Val.noVal]
-      exact h3
+  · have hcv := convert_rrt hw h3
+    rcases h1 with rfl | h1
+    · simp only [rdX, rdKw, Bool.false_eq_true, ↓reduceIte, xirArg, hc, xirReadArg, unPname, xirExpr, h2, bind,
+        Except.bind, hcv, Val.noVal, and_self]
     · cases tdm
-      · simp [rdX, rdKw, xirArg, hc, xirReadArg, unPname, xirExpr, h2, bind, Except.bind, convert, Val.noVal]
-        exact h3
-      · simp [rdX, rdKw, xirArg, hc, h1, xirReadArgTdm, xirReadKwTdm, xirExpr, h2, bind, Except.bind, convert,
-          Val.noVal]
-        exact h3
+      · simp only [rdX, rdKw, Bool.false_eq_true, ↓reduceIte, xirArg, hc, xirReadArg, unPname, xirExpr, h2, bind,
+          Except.bind, hcv, Val.noVal, and_self]
+      · simp only [rdX, rdKw, ↓reduceIte, xirArg, hc, h1, xirReadArgTdm, xirReadKwTdm, xirExpr, h2, bind,
+          Except.bind, hcv, Val.noVal, and_self]
 
-theorem xir_val_rt {P : String → Option Sym} {tdm : Bool} {k n : Nat} {v : Val} (h : ValX P tdm k n v) :
+theorem xir_val_rt {P : String → Option ISym} {tdm : Bool} {k n : Nat} {v : Val} (h : ValX P tdm k n v) :
     (rdX P tdm k (xirArg tdm v) >>= convert n) = .ok v.noVal := by
   cases v with
   | sc s => cases tdm <;> rfl
@@ -502,7 +605,7 @@ theorem xir_val_rt {P : String → Option Sym} {tdm : Bool} {k n : Nat} {v : Val
   | rrt e => cases h
   | pname i => cases h
 
-theorem xir_phi_rt {P : String → Option Sym} {tdm : Bool} {k n : Nat} {v : Val} (h : PhiX P tdm k n v) :
+theorem xir_phi_rt {P : String → Option ISym} {tdm : Bool} {k n : Nat} {v : Val} (h : PhiX P tdm k n v) :
     (rdKw P tdm k (xirArg tdm v) >>= convert n) = .ok v.noVal := by
   cases v with
   | sc s => cases tdm <;> rfl
@@ -513,7 +616,7 @@ theorem xir_phi_rt {P : String → Option Sym} {tdm : Bool} {k n : Nat} {v : Val
   | rrt e => cases h
   | pname i => cases h
 
-theorem xir_vals_rt {P : String → Option Sym} {tdm : Bool} {k n : Nat} : ∀ {l : List Val},
+theorem xir_vals_rt {P : String → Option ISym} {tdm : Bool} {k n : Nat} : ∀ {l : List Val},
     (∀ v ∈ l, ValX P tdm k n v) →
     ((l.map (xirArg tdm)).mapM (rdX P tdm k) >>= fun a => a.mapM (convert n)) = .ok (l.map Val.noVal) := by
   intro l
@@ -541,14 +644,14 @@ theorem xir_vals_rt {P : String → Option Sym} {tdm : Bool} {k n : Nat} : ∀ {
 /-! ### XIR: commands -/
 
 /-- the XIR reader of one statement, by program type -/
-def rdXStmt (P : String → Option Sym) (tdm : Bool) (n k : Nat) (s : XStmt) : Except Err Cmd :=
+def rdXStmt (P : String → Option ISym) (tdm : Bool) (n k : Nat) (s : XStmt) : Except Err Cmd :=
   if tdm then fromXStmtTdm P n k s else fromXStmt P n s
 
-def rdKwEntry (P : String → Option Sym) (tdm : Bool) (k : Nat) (kv : String × Val) : Except Err (String × Val) := do
+def rdKwEntry (P : String → Option ISym) (tdm : Bool) (k : Nat) (kv : String × Val) : Except Err (String × Val) := do
   let v ← rdKw P tdm k kv.2
   pure (kv.1, v)
 
-theorem rdXStmt_kw (P : String → Option Sym) (tdm : Bool) (n k : Nat) (name : String) (l : List (String × Val))
+theorem rdXStmt_kw (P : String → Option ISym) (tdm : Bool) (n k : Nat) (name : String) (l : List (String × Val))
     (wires : List Nat) (inv : Bool) :
     rdXStmt P tdm n k ⟨name, .kw l, wires, inv⟩ = (do
       checkName name
@@ -557,7 +660,7 @@ theorem rdXStmt_kw (P : String → Option Sym) (tdm : Bool) (n k : Nat) (name : 
       build name wires [] kws inv) := by
   cases tdm <;> cases l <;> rfl
 
-theorem rdXStmt_pos (P : String → Option Sym) (tdm : Bool) (n k : Nat) (name : String) (l : List Val)
+theorem rdXStmt_pos (P : String → Option ISym) (tdm : Bool) (n k : Nat) (name : String) (l : List Val)
     (wires : List Nat) (inv : Bool) :
     rdXStmt P tdm n k ⟨name, .pos l, wires, inv⟩ = (do
       checkName name
@@ -572,7 +675,7 @@ inductive Rel2 {α β : Type} (R : α → β → Prop) : List α → List β →
   | cons {a b l l'} : R a b → Rel2 R l l' → Rel2 R (a :: l) (b :: l')
 
 /-- reading a keyword list entry by entry -/
-theorem kw_rt {P : String → Option Sym} {tdm : Bool} {n k : Nat} : ∀ {l l' : List (String × Val)},
+theorem kw_rt {P : String → Option ISym} {tdm : Bool} {n k : Nat} : ∀ {l l' : List (String × Val)},
     Rel2 (fun kv kv' => kv.1 = kv'.1 ∧ (rdKw P tdm k kv.2 >>= convert n) = .ok kv'.2) l l' →
     (l.mapM (rdKwEntry P tdm k) >>= convertKw n) = .ok l' := by
   intro l l' h
@@ -596,7 +699,7 @@ theorem kw_rt {P : String → Option Sym} {tdm : Bool} {n k : Nat} : ∀ {l l' :
         rw [ih, hk]
         rfl
 
-theorem sel_forall {P : String → Option Sym} {tdm : Bool} {n k : Nat} {sel dark : Option Val}
+theorem sel_forall {P : String → Option ISym} {tdm : Bool} {n k : Nat} {sel dark : Option Val}
     (hs : OptSel sel) (hd : OptSel dark) :
     Rel2 (fun kv kv' => kv.1 = kv'.1 ∧ (rdKw P tdm k kv.2 >>= convert n) = .ok kv'.2)
       (optKw "select" sel ++ optKw "dark_counts" dark) (optKw "select" sel ++ optKw "dark_counts" dark) := by
@@ -643,7 +746,7 @@ theorem build_phi {cls : String} {regs : List Nat} {a : Val} {sel dark : Option 
   simp only [Bool.false_eq_true, ↓reduceIte, if_neg hF, hphi, hsel, hdk, Option.toList_some, List.nil_append]
 
 /-- commands in the fragment XIR expresses -/
-def CmdX (P : String → Option Sym) (tdm : Bool) (k n : Nat) (c : Cmd) : Prop :=
+def CmdX (P : String → Option ISym) (tdm : Bool) (k n : Nat) (c : Cmd) : Prop :=
   SFV.Gen.ioClassNames.contains c.cls = true ∧ c.kw = [] ∧
   ((isMeasure c.cls = true ∧ c.cls ≠ "Fouriergate" ∧ (c.pars = [] ∨ ∃ a, c.pars = [a] ∧ PhiX P tdm k n a) ∧
       OptSel c.select ∧ OptSel c.dark ∧ (c.dark = none ∨ c.cls = "MeasureFock")) ∨
@@ -653,7 +756,7 @@ def CmdX (P : String → Option Sym) (tdm : Bool) (k n : Nat) (c : Cmd) : Prop :
 
 /-- one command through `to_xir` and the XIR reader: returned unchanged (inverse flag included), its
 parameters holding no value -/
-theorem xir_cmd_rt {P : String → Option Sym} {tdm : Bool} {k n : Nat} {c : Cmd} (h : CmdX P tdm k n c) :
+theorem xir_cmd_rt {P : String → Option ISym} {tdm : Bool} {k n : Nat} {c : Cmd} (h : CmdX P tdm k n c) :
     rdXStmt P tdm n k (toXStmt tdm c) = .ok (clearCmd c) := by
   obtain ⟨cls, regs, pars, dagger, select, dark, kw⟩ := c
   obtain ⟨hnm, hkw, h⟩ := h
@@ -731,7 +834,7 @@ the sum of `N` -/
 def readN (p : Prog) : Nat := match p.tdm with | some t => t.N.foldl (· + ·) 0 | none => usedModes p
 
 /-- the fragment XIR expresses (ordinary and TDM programs) -/
-def ExprX (P : String → Option Sym) (p : Prog) : Prop :=
+def ExprX (P : String → Option ISym) (p : Prog) : Prop :=
   p.name ≠ "" ∧ p.target ≠ some "" ∧ p.extra = [] ∧
   (match p.tdm with
     | none => (p.cmds.map (·.regs)).flatten ≠ []
@@ -741,7 +844,7 @@ def ExprX (P : String → Option Sym) (p : Prog) : Prop :=
 /-- what comes back from XIR: the program itself, no values held, `n` as the reader infers it -/
 def normX (p : Prog) : Prog := { p with n := readN p, cmds := p.cmds.map clearCmd }
 
-theorem xir_prog_rt (P : String → Option Sym) (p : Prog) (h : ExprX P p) :
+theorem xir_prog_rt (P : String → Option ISym) (p : Prog) (h : ExprX P p) :
     toProgramXIR P (toXIR p) = .ok (normX p) := by
   obtain ⟨name, n, target, shots, cutoff, tdm, extra, cmds⟩ := p
   obtain ⟨hname, htarget, hex, hshape, hc⟩ := h
@@ -849,7 +952,8 @@ theorem bbArg_text_same {tdm : Bool} {x y : Val} (h : SameButVal x y) :
     · have hm' : e'.meas = [] := hmeas ▸ hm
       simp only [hm, hm', ne_eq, not_true_eq_false, ↓reduceIte, hpos]
     · have hm' : e'.meas ≠ [] := hmeas ▸ hm
-      simp only [ne_eq, hm, hm', not_false_eq_true, ↓reduceIte, textVal, he]
+      have hneg : e.neg = e'.neg := (congrArg Sym.neg he : e.noVal.neg = e'.noVal.neg)
+      simp only [ne_eq, hm, hm', not_false_eq_true, ↓reduceIte, textVal, toI, hpos, hneg, hmeas, hfrees]
 
 theorem neg_same {x y : Val} (h : SameButVal x y) :
     (x.neg = none ∧ y.neg = none) ∨ ∃ a b, x.neg = some a ∧ y.neg = some b ∧ SameButVal a b := by
